@@ -307,6 +307,11 @@ def _state_ops(A: Analysis, f: FuncInfo) -> dict:
             d = dotted(n.func) or ""
             if isinstance(n.func, ast.Attribute) and n.func.attr in ("__getstate__", "__setstate__") and isinstance(n.func.value, ast.Call) and dotted(n.func.value.func) == "super":
                 ops["super"] = True
+            # dict(state, key=value) / {**state, "key": value}: the key travels with the state that is restored in bulk
+            if d == "dict" and n.args and n.keywords:
+                for kw_ in n.keywords:
+                    if kw_.arg:
+                        ops["restored"].add(kw_.arg)
             if d == "self.__dict__.update" or d.endswith("__dict__.update"):
                 ops["bulk"] = "__dict__.update"
             if d == "setattr" and len(n.args) == 3 and norm(n.args[0]) == "self":
@@ -399,6 +404,66 @@ def check_c29(A: Analysis, col: Collector):
             col.ok("C29.keys", f"{c.name}: remaining state is restored ({so['bulk'] or ('super()' if so['super'] else 'explicit keys')})", A.loc(s.node))
         else:
             col.fail("C29.keys", c.qualname, "state-not-restored", f"{c.name}.__setstate__ does not restore the remaining state (no __dict__.update / setattr loop / super())", A.loc(s.node))
+    # every literal key used on the state mapping names an attribute of the class (a misspelt key reads
+    # None / raises only at run time, in the other process)
+    n_keys = 0
+    for c, g, s_ in pairs:
+        for m in (g, s_):
+            if m is None:
+                continue
+            state_names = {p_.arg for p_ in m.params() if p_.arg != "self"}
+            for n in walk_own(m.node):
+                if isinstance(n, ast.Assign) and isinstance(n.targets[0], ast.Name) and any(isinstance(k, ast.Name) and (k.id in state_names or k.id == "self") for k in ast.walk(n.value)) and any(isinstance(k, ast.Attribute) and k.attr in ("__dict__", "copy") or (isinstance(k, ast.Call) and norm(k.func) in ("dict", "attrs.asdict", "super().__getstate__")) for k in ast.walk(n.value)):
+                    state_names.add(n.targets[0].id)
+            for n in walk_own(m.node):
+                key = None
+                if isinstance(n, ast.Subscript) and isinstance(n.value, ast.Name) and n.value.id in state_names and isinstance(n.slice, ast.Constant) and isinstance(n.slice.value, str):
+                    key = n.slice.value
+                elif isinstance(n, ast.Call) and isinstance(n.func, ast.Attribute) and n.func.attr in ("get", "pop", "setdefault") and isinstance(n.func.value, ast.Name) and n.func.value.id in state_names and n.args and isinstance(n.args[0], ast.Constant) and isinstance(n.args[0].value, str):
+                    key = n.args[0].value
+                if key is None:
+                    continue
+                n_keys += 1
+                if A.rs.class_has_attr(c, key):
+                    col.ok("C29.keys", f"{c.name}.{m.name}: state key '{key}' names an attribute of the class", A.loc(n))
+                else:
+                    col.fail("C29.keys", m.qualname, f"unknown-state-key:{key}", f"`{norm(n, 50)}` uses the state key '{key}', which is not an attribute of {c.name} (fields / attributes assigned in its methods): the value read is None / the key is never consumed, so the unpickled object is configured differently from the original", A.loc(n))
+    if n_keys < 4:
+        raise AnalysisError(f"C29: {n_keys} literal state keys found in the pickling pairs; floor 4")
+    # an unpicklable helper object held on a pickled object is released under the guard it was acquired
+    # under: Audit.resource_monitor (a thread with an open file) is created under audit_check(RESOURCE) and
+    # the job -- with its Audit -- is pickled by save() right after finalize_audit
+    aud = A.cls("pydra.engine.audit.Audit")
+    col.scope(aud.qualname)
+
+    def _guards(node):
+        return sorted({norm(p_.test) for p_ in parents(node) if isinstance(p_, ast.If) and any(node is k for k in ast.walk(ast.Module(body=p_.body, type_ignores=[])))})
+
+    acquired = {}
+    released = {}
+    for m in aud.methods.values():
+        for n in walk_own(m.node):
+            if isinstance(n, ast.Assign) and len(n.targets) == 1 and isinstance(n.targets[0], ast.Attribute) and norm(n.targets[0].value) == "self":
+                attr = n.targets[0].attr
+                if isinstance(n.value, ast.Call) and m.name != "__init__":
+                    tg = [t for t in A.rs.resolve_call(n.value, m).repo_targets if isinstance(t, ClassInfo)]
+                    if any(any(isinstance(b, ast.AST) and "Thread" in norm(b) for b in t.node.bases) for t in tg):
+                        acquired.setdefault(attr, []).append((m, n))
+                elif isinstance(n.value, ast.Constant) and n.value.value is None and m.name != "__init__":
+                    released.setdefault(attr, []).append((m, n))
+    if not acquired:
+        raise AnalysisError("C29: no thread-backed helper acquired by Audit was found (anchor moved)")
+    for attr, acqs in acquired.items():
+        gacq = set(g_ for m, n in acqs for g_ in _guards(n))
+        rels = released.get(attr, [])
+        if not rels:
+            col.fail("C29.release", aud.qualname, f"unpicklable-helper-never-released:{attr}", f"Audit.{attr} (a thread with an open file) is never reset to None: pickling the job after the run fails", A.loc(acqs[0][1]))
+        for m, n in rels:
+            extra = [g_ for g_ in _guards(n) if g_ not in gacq]
+            if extra:
+                col.fail("C29.release", m.qualname, f"release-guard-narrower:{attr}", f"`self.{attr} = None` in {m.name} is additionally guarded by {extra}, while the object is created under {sorted(gacq)}: with the narrower guard false the thread object stays on the job's Audit and `save(..., job=self)` cannot pickle the job (the computed result is reported as failed)", A.loc(n))
+            else:
+                col.ok("C29.release", f"Audit.{attr} is released in {m.name} under the guard it was acquired under ({sorted(gacq)})", A.loc(n))
     # Job keeps its memoised checksum
     jg = A.func("pydra.engine.job.Job.__getstate__")
     jo = _state_ops(A, jg)
